@@ -56,6 +56,7 @@ def near_int(x):
 # and the element left unchanged near the edges when it is off"
 
 import statistics
+from spec.prims import forall, exists, pairwise, adjacent, strip, is_sorted, subset
 
 
 def medianFilter(dist, window, useEdgePadding):
@@ -95,3 +96,37 @@ def removeBlanks(tier):
 
 def isclose(a, b, rel_tol=1e-14, abs_tol=0.0):
     return abs(a - b) <= max(rel_tol * max(abs(a), abs(b)), abs_tol)
+
+
+# ---- C02 / C04: blank filling ---------------------------------------------------------------
+# "When blank filling is on, each interval tier in the file is an ascending, gap-free, overlap-free partition
+# of the file's [xmin, xmax]" ; "saving changes the annotation only by adding empty-labelled intervals in
+# unlabelled stretches" ; "if an entry would fall outside the requested span the save raises"
+
+
+def fillInBlanks(tier, blankLabel, minTime, maxTime):
+    if minTime is None:
+        minTime = tier["xmin"]
+    if maxTime is None:
+        maxTime = tier["xmax"]
+    E = tier["entries"]
+    if len(E) == 0:
+        tier["entries"] = [(minTime, maxTime, blankLabel)]
+        return
+    first = E[0]
+    last = E[-1]
+    if first[0] < minTime:
+        raise errors.ParsingError("")
+    if last[1] > maxTime:
+        raise errors.ParsingError("")
+    # every entry in order, each preceded by a blank over the gap to its predecessor (if any gap)
+    body = [first] + [x for a, b in zip(E, E[1:]) for x in gap_then(a, b, blankLabel)]
+    head = [(minTime, first[0], blankLabel)] if first[0] > minTime else []
+    tail = [(last[1], maxTime, blankLabel)] if last[1] < maxTime else []
+    tier["entries"] = head + body + tail
+
+
+def gap_then(a, b, blankLabel):
+    if a[1] < b[0]:
+        return [(a[1], b[0], blankLabel), b]
+    return [b]
